@@ -102,7 +102,15 @@ def r1_guard(ck, F, d):
                 y = y.strip()
                 if not (y.k == "field" and y.x.get("idx") == 0 and y.a[0].k == "downcast" and y.a[0].x.get("variant") == "Some"):
                     return False
-                return y.a[0].a[0].strip().k == "call"
+                # what is unwrapped is the result of a cursor call on every path (`x?` of a join of calls, one of
+                # them possibly re-wrapped: `Ok(cursor.current())`)
+                for z in flat_alts(y.a[0].a[0].strip()):
+                    z = z.strip()
+                    if z.k == "agg" and z.x.get("variant") == "Ok" and z.a:
+                        z = z.a[0].strip()
+                    if z.k != "call":
+                        return False
+                return True
             whole = all(_some_payload(y) for y in flat_alts(tup))
             same = whole and cursor_sources(tup) == tested
         ck.ob(R, f"yield-is-tested-entry/{d}", same, "the yielded (key, value) are the two parts of the entry whose key was tested", b, s)
